@@ -1,5 +1,7 @@
 import KV.Props.C03
 import KV.Proofs.CsProgress3
+import KV.Proofs.CsCommit
+import KV.Proofs.CsOld
 /-!
 # C04 (part) — local progress invariants of the node model `Cs`
 
@@ -26,7 +28,18 @@ by `OnStart`'s `scheduleRound0` (the model's `init` has nothing scheduled yet).
    internal queue.  The state forms are kept as `…Statement`.
 3. `timeout_makes_progress` — firing the pending timeout of the current step strictly increases
    (round, step, ttp) (or the PrecommitWait timeout moves to the next round).
-4. `round_skip_prevotes`, `round_skip_precommits`.
+4. `round_skip_prevotes`, `round_skip_precommits` — for a node that is NOT in the commit step (F37
+   fix: in the commit step the height is decided and votes of later rounds do not move the node).
+5. The commit step is absorbing (F37 fix: `enterNewRound` and `enterPrecommit` return in the commit
+   step): `commit_step_absorbing` (no input moves a node in the commit step to another round or
+   step; it stays, finalises or halts), `commit_never_forgotten` (a node waiting for the block of
+   its commit commits it when it arrives, whatever it handles in between), and the regression
+   theorems about the earlier rules (`KV/Proofs/CsOld.lean`): `commit_forgotten_counterexample_old_rule`,
+   `f37_alone_double_signs_counterexample`.  With (5), `no_commit_stall_enterCommit` /
+   `no_commit_stall_block` say more than before: the commit step can only be LEFT through
+   `finalizeCommit` (or a halt), so "never in Commit holding the complete committed block" at the two
+   places where that block can become available, plus `commit_step_absorbing` in between, is the
+   whole life of a commit: enter — wait (absorbing) — block arrives — finalise.
 -/
 namespace KV.Props.C04Cs
 open KV.Cs KV.Props.C03
@@ -158,9 +171,12 @@ theorem no_commit_stall_block (cfg : Config) (σ : State) (hs : σ.step = .commi
   exact tryFinalizeCommit_noStall cfg σ.height σ rfl hs
 
 /-- The state form of the commit clause: an invariant of `step` (not proved: it needs the
-stability of `maj23` under further votes — two targets cannot both have +2/3 — and that Commit is
-only entered with a majority).  The two theorems above are its preservation at the only two places
-where the committed block can become available. -/
+stability of `maj23` under further votes — two targets cannot both have +2/3, `Sync.maj23_of_isMaj`
+— and that Commit is only entered with a majority).  The two theorems above are its preservation
+at the only two places where the committed block can become available; since the F37 fix the commit
+step is left only through `finalizeCommit` (`commit_step_absorbing`), and a node that waits for the
+block commits it when it arrives (`commit_never_forgotten`: the liveness half, for the states
+`Waiting`). -/
 def noCommitStallStatement : Prop :=
   ∀ (cfg : Config) (h0 : Nat) (inputs : List (Option Nat × Input)), Sane cfg (start cfg h0) inputs →
     NoCommitStall cfg (run cfg (start cfg h0) inputs)
@@ -228,25 +244,216 @@ theorem step_timeout (cfg : Config) (nb : Option Nat) (σ : State) (h r : Nat) (
 /-! ### (4) round_skip -/
 
 /-- **(4)** +2/3 any prevotes for a later round (the vote that completes them is stored in `σ`):
-the node moves to that round -/
+a node that is not in the commit step moves to that round (in the commit step the height is
+decided and the node stays: F37 fix, `commit_step_absorbing`) -/
 theorem round_skip_prevotes (cfg : Config) (nb : Option Nat) (vr : Nat) (σ : State) (hr : σ.round < vr)
-    (hany : hasAny cfg.powers (σ.slots .prevote σ.height vr) = true) :
+    (hc : σ.step ≠ .commit) (hany : hasAny cfg.powers (σ.slots .prevote σ.height vr) = true) :
     (afterPrevote cfg nb vr σ).height = σ.height ∧ vr ≤ (afterPrevote cfg nb vr σ).round :=
-  afterPrevote_round_skip cfg nb vr σ hr hany
+  afterPrevote_round_skip cfg nb vr σ hr hc hany
 
 /-- **(4)** +2/3 any precommits for a later round: the node moves to that round, or commits -/
 theorem round_skip_precommits (cfg : Config) (nb : Option Nat) (vr : Nat) (σ : State) (hr : σ.round < vr)
-    (hany : hasAny cfg.powers (σ.slots .precommit σ.height vr) = true) :
+    (hc : σ.step ≠ .commit) (hany : hasAny cfg.powers (σ.slots .precommit σ.height vr) = true) :
     (afterPrecommit cfg nb vr σ).height = σ.height + 1 ∨
     ((afterPrecommit cfg nb vr σ).height = σ.height ∧ vr ≤ (afterPrecommit cfg nb vr σ).round) :=
-  afterPrecommit_round_skip cfg nb vr σ hr hany
+  afterPrecommit_round_skip cfg nb vr σ hr hc hany
 
-/-- The state form of round skipping (not proved): in every reachable state no later round has
-+2/3 any prevotes or precommits — the node would have moved there when the vote was added. -/
+/-- The state form of round skipping (not proved): in every reachable state of a node that is not
+in the commit step no later round has +2/3 any prevotes or precommits — the node would have moved
+there when the vote was added (in the commit step it deliberately stays: F37) -/
 def noFutureQuorumStatement : Prop :=
   ∀ (cfg : Config) (h0 : Nat) (inputs : List (Option Nat × Input)), Sane cfg (start cfg h0) inputs →
     let σ := run cfg (start cfg h0) inputs
-    ∀ r t, σ.round < r → hasAny cfg.powers (σ.slots t σ.height r) = false
+    σ.step ≠ .commit → ∀ r t, σ.round < r → hasAny cfg.powers (σ.slots t σ.height r) = false
+
+
+/-! ### (5) the commit step is absorbing (F37) -/
+
+/-- **commit_step_absorbing.** A node in the commit step (it holds +2/3 precommits for a block) that
+handles ANY input — votes of later rounds included; timeouts as in C03 — afterwards is still in the
+commit step of the same height and round with the same commit round, or has finalised (next
+height), or is halted (`finalizeCommit` on an invalid block / a timeout with an invalid step).
+Before the F37 fix `enterNewRound` (reached from `addVote` on +2/3 any of a later round) and
+`enterPrecommit` (reached on a +2/3 precommit majority of a later round) moved the node out of the
+commit step and the commit was forgotten: `commit_forgotten_counterexample_old_rule`,
+`f37_alone_double_signs_counterexample`. -/
+theorem commit_step_absorbing (cfg : Config) (σ : State) (nb : Option Nat) (i : Input) (hc : σ.step = .commit)
+    (hok : InputOk σ i) :
+    (step cfg σ nb i).halted = true ∨ (step cfg σ nb i).height = σ.height + 1 ∨
+    ((step cfg σ nb i).height = σ.height ∧ (step cfg σ nb i).round = σ.round ∧
+      (step cfg σ nb i).step = .commit ∧ (step cfg σ nb i).commitRound = σ.commitRound) := by
+  cases step_outcome cfg σ nb i hc hok with
+  | halted h => exact Or.inl h
+  | finalised h => exact Or.inr (Or.inl h.1)
+  | stays h => exact Or.inr (Or.inr ⟨h.height, h.round, h.step, h.commitRound⟩)
+
+/-- the inputs while the node waits for block `b`: timeouts are scheduled ones (not for a later
+round, a valid step), the block `b` itself is not among them, and no input completes a polka for
+ANOTHER block in the node's round (`addVote` then replaces the part set: "Valid block we don't know
+about"; impossible while less than 1/3 of the power is faulty, possible for arbitrary Byzantine
+input) -/
+def Calm (cfg : Config) (b : Nat) : State → List (Option Nat × Input) → Prop
+  | _, [] => True
+  | σ, (nb, i) :: rest =>
+    InputOk σ i ∧ timeoutStepOk i ∧ notBlock σ b i ∧
+    (match maj23 cfg.powers (slotsV (step cfg σ nb i).votes .prevote (step cfg σ nb i).height (step cfg σ nb i).round) with
+     | some (some b') => b' = b
+     | _ => True) ∧
+    Calm cfg b (step cfg σ nb i) rest
+
+theorem waiting_run {cfg : Config} {b : Nat} : ∀ (inputs : List (Option Nat × Input)) (σ : State),
+    Waiting cfg b σ → Calm cfg b σ inputs → Waiting cfg b (run cfg σ inputs)
+  | [], _, W, _ => W
+  | (nb, i) :: rest, σ, W, hc => by
+    obtain ⟨h1, h2, h3, h4, h5⟩ := hc
+    rcases waiting_step W nb i h1 h2 h3 with W' | ⟨b', hne, hm⟩
+    · exact waiting_run rest _ W' h5
+    · rw [hm] at h4; exact absurd h4 hne
+
+/-- **commit_never_forgotten.** A node that is in the commit step for block `b` (+2/3 precommits
+for `b` at its commit round) and waits for the block (`Waiting`: its part set is the one of `b`)
+commits `b` when the complete valid block arrives — whatever proposals, blocks, votes of ANY round
+and scheduled timeouts it handles in between (`Calm`: the one exception is a polka for another
+block in its own round). -/
+theorem commit_never_forgotten (cfg : Config) (b : Nat) (σ : State) (inputs : List (Option Nat × Input))
+    (W : Waiting cfg b σ) (hc : Calm cfg b σ inputs) (nb : Option Nat) :
+    Action.commit σ.height b ∈
+      (run cfg σ (inputs ++ [(nb, .block σ.height b true true)])).log := by
+  have W' := waiting_run inputs σ W hc
+  have hh : (run cfg σ inputs).height = σ.height := by
+    clear W'
+    induction inputs generalizing σ with
+    | nil => rfl
+    | cons x rest ih =>
+      obtain ⟨nb', i⟩ := x
+      obtain ⟨h1, h2, h3, h4, h5⟩ := hc
+      rcases waiting_step W nb' i h1 h2 h3 with W1 | ⟨b', hne, hm⟩
+      · have := ih _ W1 h5
+        show (run cfg (step cfg σ nb' i) rest).height = σ.height
+        rw [this]
+        cases step_outcome cfg σ nb' i W.st h1 with
+        | halted h => rw [W1.nh] at h; cases h
+        | finalised h =>
+          -- a finalised node is in NewHeight, not in Commit
+          have := W1.st
+          rw [h.2] at this
+          cases this
+        | stays h => exact h.height
+      · rw [hm] at h4; exact absurd h4 hne
+  rw [Sync.run_append]
+  have := (waiting_block W' nb).1
+  rw [hh] at this
+  exact this
+
+
+/-! ### F37: regression and non-vacuity -/
+
+instance : (i : Input) → Decidable (timeoutStepOk i)
+  | .timeout _ _ s => by unfold timeoutStepOk; exact inferInstance
+  | .proposal .. => isTrue trivial
+  | .block .. => isTrue trivial
+  | .vote .. => isTrue trivial
+
+instance (σ : State) (b : Nat) : (i : Input) → Decidable (notBlock σ b i)
+  | .block h id _ _ => by unfold notBlock; exact inferInstance
+  | .proposal .. => isTrue trivial
+  | .timeout .. => isTrue trivial
+  | .vote .. => isTrue trivial
+
+instance (σ : State) : (i : Input) → Decidable (InputOk σ i)
+  | .timeout h r _ => by unfold InputOk TimeoutOk; exact inferInstance
+  | .proposal .. => isTrue trivial
+  | .block .. => isTrue trivial
+  | .vote .. => isTrue trivial
+
+instance decCalm (cfg : Config) (b : Nat) : (σ : State) → (l : List (Option Nat × Input)) → Decidable (Calm cfg b σ l)
+  | _, [] => isTrue trivial
+  | σ, (nb, i) :: rest =>
+    have := decCalm cfg b (step cfg σ nb i) rest
+    by
+      unfold Calm
+      have : Decidable (match maj23 cfg.powers (slotsV (step cfg σ nb i).votes .prevote (step cfg σ nb i).height
+          (step cfg σ nb i).round) with
+        | some (some b') => b' = b
+        | _ => True) := by
+        split <;> exact inferInstance
+      exact inferInstance
+
+/-- the node never gets the proposal of round 1; +2/3 precommits for block 7 arrive: commit step,
+waiting for the block -/
+def commitWaitRun : List (Option Nat × Input) :=
+  [ (none, .timeout 1 1 .newHeight),
+    (none, .vote 1 1 .precommit 1 1 (some 7) true),
+    (none, .vote 1 2 .precommit 1 1 (some 7) true),
+    (none, .vote 1 3 .precommit 1 1 (some 7) true) ]
+
+/-- +2/3 any prevotes of round 3 -/
+def laterPrevotes : List (Option Nat × Input) :=
+  [ (none, .vote 1 1 .prevote 1 3 none true), (none, .vote 1 2 .prevote 1 3 none true),
+    (none, .vote 1 3 .prevote 1 3 none true) ]
+
+/-- a +2/3 NIL precommit majority of round 2 -/
+def laterNilPrecommits : List (Option Nat × Input) :=
+  [ (none, .vote 1 1 .precommit 1 2 none true), (none, .vote 1 2 .precommit 1 2 none true),
+    (none, .vote 1 3 .precommit 1 2 none true) ]
+
+def theBlock : List (Option Nat × Input) := [(none, .block 1 7 true true)]
+
+/-- (height, round, step, commit round) -/
+def posView (σ : State) : Nat × Nat × Step × Nat := (σ.height, σ.round, σ.step, σ.commitRound)
+
+def commits (σ : State) (h b : Nat) : Bool := decide (Action.commit h b ∈ σ.log)
+
+/-- how often the node asked for a precommit signature for (1, 1) -/
+def precommitSigs11 (σ : State) : Nat := (σ.log.filter (fun a => sigKey a == some (1, 1, 6))).length
+
+/-- non-vacuity of `commit_never_forgotten`: the hypotheses hold on `commitWaitRun` followed by the
+prevotes and the nil precommits of later rounds -/
+example : Waiting cfg4 7 (run cfg4 (start cfg4 1) commitWaitRun) :=
+  ⟨by decide, by decide, by decide, by decide⟩
+example : Calm cfg4 7 (run cfg4 (start cfg4 1) commitWaitRun) (laterPrevotes ++ laterNilPrecommits) := by decide
+
+/-- **Regression (F37): the OLD rule forgets the commit.**  The node is in the commit step of (1, 1)
+waiting for block 7; +2/3-any prevotes of round 3 arrive: under the old rule (and with the F36 fix
+alone) `enterNewRound` moves it to round 3 (step Propose, part set dropped); when block 7 arrives
+it is not expected any more and the node never commits.  The repaired node stays in the commit step
+and commits when the block arrives. -/
+theorem commit_forgotten_counterexample_old_rule :
+    posView (run cfg4 (start cfg4 1) commitWaitRun) = (1, 1, .commit, 1) ∧
+    -- old rule
+    posView (runR Rule.old cfg4 (start cfg4 1) (commitWaitRun ++ laterPrevotes)) = (1, 3, .propose, 1) ∧
+    commits (runR Rule.old cfg4 (start cfg4 1) (commitWaitRun ++ laterPrevotes ++ theBlock)) 1 7 = false ∧
+    posView (runR Rule.old cfg4 (start cfg4 1) (commitWaitRun ++ laterPrevotes ++ theBlock)) = (1, 3, .propose, 1) ∧
+    -- F36 fix alone
+    commits (runR Rule.f36only cfg4 (start cfg4 1) (commitWaitRun ++ laterPrevotes ++ theBlock)) 1 7 = false ∧
+    -- the repaired node
+    posView (run cfg4 (start cfg4 1) (commitWaitRun ++ laterPrevotes)) = (1, 1, .commit, 1) ∧
+    commits (run cfg4 (start cfg4 1) (commitWaitRun ++ laterPrevotes ++ theBlock)) 1 7 = true ∧
+    (run cfg4 (start cfg4 1) (commitWaitRun ++ laterPrevotes ++ theBlock)).height = 2 := by decide
+
+/-- **Regression (F37): the `enterNewRound` guard alone is not enough, and signs twice.**  With only
+the first guard (`Rule.f37a`), a +2/3 NIL precommit majority of round 2 runs `enterNewRound(1, 2)`
+(returns: commit step) and then `enterPrecommit(1, 2)`, whose guard does not apply to a later round:
+the node signs a SECOND precommit stamped with its unchanged round 1, leaves the commit step
+(round 2, step Precommit) and does not commit when block 7 arrives.  With the second guard (the
+node model) it stays, signs once and commits. -/
+theorem f37_alone_double_signs_counterexample :
+    precommitSigs11 (run cfg4 (start cfg4 1) commitWaitRun) = 1 ∧
+    -- first guard only
+    precommitSigs11 (runR Rule.f37a cfg4 (start cfg4 1) (commitWaitRun ++ laterNilPrecommits)) = 2 ∧
+    posView (runR Rule.f37a cfg4 (start cfg4 1) (commitWaitRun ++ laterNilPrecommits)) = (1, 2, .precommit, 1) ∧
+    commits (runR Rule.f37a cfg4 (start cfg4 1) (commitWaitRun ++ laterNilPrecommits ++ theBlock)) 1 7 = false ∧
+    -- both guards
+    precommitSigs11 (run cfg4 (start cfg4 1) (commitWaitRun ++ laterNilPrecommits)) = 1 ∧
+    posView (run cfg4 (start cfg4 1) (commitWaitRun ++ laterNilPrecommits)) = (1, 1, .commit, 1) ∧
+    commits (run cfg4 (start cfg4 1) (commitWaitRun ++ laterNilPrecommits ++ theBlock)) 1 7 = true := by decide
+
+/-- `commit_never_forgotten` on the instance, through the theorem -/
+example : Action.commit 1 7 ∈
+    (run cfg4 (run cfg4 (start cfg4 1) commitWaitRun) (laterPrevotes ++ laterNilPrecommits ++ theBlock)).log := by
+  have W : Waiting cfg4 7 (run cfg4 (start cfg4 1) commitWaitRun) := ⟨by decide, by decide, by decide, by decide⟩
+  have := commit_never_forgotten cfg4 7 _ (laterPrevotes ++ laterNilPrecommits) W (by decide) none
+  exact this
 
 /-! ### non-vacuity -/
 
